@@ -463,8 +463,10 @@ class XPathToken(Token[ta.XPathTokenType]):
                         yield value
 
                     if value is None and not item.nilled:
-                        msg = f"argument node {item!r} does not have a typed value"
-                        raise self.error('FOTY0012', msg)
+                        xsd_type = getattr(item, 'xsd_type', None)
+                        if xsd_type is None or not xsd_type.is_list():
+                            msg = f"argument node {item!r} does not have a typed value"
+                            raise self.error('FOTY0012', msg)
                 else:
                     value = item.compat_string_value
                     yield value
